@@ -30,6 +30,18 @@ static inline _Bool url_eqv(struct url a, struct url b) {
   if (a.port.has != b.port.has || (a.port.has && a.port.v != b.port.v)) return 0;
   return str_eqv(&a.path, &b.path) && str_eqv(&a.username, &b.username) && str_eqv(&a.password, &b.password) && str_eqv(&a.non_special_scheme, &b.non_special_scheme);
 }
+/* an arbitrary ada::url as harness input (canonical _Bool bytes); witness mode: every field an explicit assignment; native replay:
+ * the recorded values */
+#if defined(NATIVE_REPLAY_DECLS)
+#define ND_URL(u) struct url u; memset(&u, 0, sizeof u); W_INIT_##u
+#elif defined(WITNESS)
+#define ND_STR_(s) do { (s).n = nondet_size(); for (size_t i_ = 0; i_ <= STR_CAP; i_++) (s).d[i_] = nondet_char(); } while (0)
+#define ND_URL(u) struct url u; u.base.is_valid = 1; u.base.has_opaque_path = nondet_bool(); u.base.host_type = nondet_int(); u.base.type = nondet_int(); \
+  u.host.has = nondet_bool(); u.query.has = nondet_bool(); u.hash.has = nondet_bool(); u.port.has = nondet_bool(); u.port.v = nondet_u16(); \
+  ND_STR_(u.host.v); ND_STR_(u.path); ND_STR_(u.query.v); ND_STR_(u.hash.v); ND_STR_(u.username); ND_STR_(u.password); ND_STR_(u.non_special_scheme)
+#else
+#define ND_URL(u) struct url u; u.base.is_valid = 1; u.base.has_opaque_path = nondet_bool(); u.host.has = nondet_bool(); u.query.has = nondet_bool(); u.hash.has = nondet_bool(); u.port.has = nondet_bool()
+#endif
 typedef struct { _Bool has; struct url_aggregator v; } result_url_aggregator_t;   /* ada::result<url_aggregator> = tl::expected<url_aggregator, errors> */
 typedef struct { const char *data; size_t length; } ada_string;
 typedef struct { const char *data; size_t length; } ada_owned_string;
